@@ -63,6 +63,10 @@ def d1(cx: Cx, ob: Ob) -> None:
                 ob.violate(m.qualname, where(m, ev.line), f"{m.name} uses its LocationOr argument `{p.name}` without passing it through _prepare: file paths and URLs are not loaded", witness=show(t)[:100], detail="bypass-prepare")
         if not used_prepared:
             ob.violate(m.qualname, m.where, f"{m.name} never passes `{p.name}` through _prepare", detail="no-prepare")
+    check_load_wrappers(cx, ob)
+
+
+def check_load_wrappers(cx: Cx, ob: Ob) -> None:
     for w, target in WRAPPERS.items():
         fn = cx.fn(f"{API}.{w}", ob.id)
         s = cx.summary(fn, ob.id)
@@ -288,7 +292,7 @@ def loader_ctor(cx: Cx, ob: Ob, m, mapping_input: bool = False):
         elif op(t) == "call" and op(t[1]) == "attr" and t[1][1] in (("param", "cls"), ("cls", CONV)) and t[1][2].startswith("from_"):
             if not any(k is None and v == ("param", "kwargs") for k, v in t[3]):
                 ob.violate(m.qualname, where(m, line), f"{m.name} does not forward **kwargs to {t[1][2]}", detail="kwargs")
-            yield s, ("delegate", t[1][2], t[2][0] if t[2] else None), line
+            yield s, ("delegate", t[1][2], t[2][0] if t[2] else None, tuple((g.a, g.b) for g in ctx.guards if g.kind == "guard")), line
         else:
             ob.violate(m.qualname, where(m, line), f"{m.name} returns `{show(t)[:60]}`, not cls(records, **kwargs)", detail="return-shape")
 
@@ -342,6 +346,26 @@ def d4(cx: Cx, ob: Ob) -> None:
     data = ("param", m.params[1].name)
     for s, recs, line in loader_ctor(cx, ob, m, mapping_input=True):
         ob.site(f"{where(m, line)} {m.qualname}", show(recs)[:80])
+        if op(recs) == "delegate" and recs[1] != "from_prefix_map":
+            # the input is handed to the loader of ANOTHER format on the strength of what it contains: right only for
+            # inputs that are no prefix maps at all (a value that is not a string); a test of the KEYS alone also
+            # catches prefix maps that happen to use that key as a CURIE prefix
+            gs_ = recs[3] if len(recs) > 3 else ()
+            non_str = any(pol is True and op(a) == "call" and a[1] == ("builtin", "isinstance") and len(a[2]) == 2 and any(op(y) in ("call", "item") for y in subterms(a[2][0])) and not any(show(t_).rsplit(".", 1)[-1] == "str" for t_ in (a[2][1][1] if op(a[2][1]) == "tuple" else (a[2][1],))) for a, pol in gs_)
+            on_keys = [a for a, pol in gs_ if op(a) == "cmp" and a[1] in ("in", "not in") and is_const(a[2])]
+            if non_str:
+                ob.site(f"{where(m, line)} {m.qualname}", f"inputs whose value under a key is not a string go to {recs[1]} (no prefix map has such a value)")
+            elif on_keys:
+                ob.violate(
+                    m.qualname,
+                    where(m, line),
+                    f"from_prefix_map hands its input to {recs[1]} whenever `{show(on_keys[0])[:50]}`: a prefix map that uses that key as a CURIE prefix is a listed (prefix, URI prefix) pair like any other, and is now read as another format (AttributeError / a converter without that pair)",
+                    witness="from_prefix_map({'@context': 'https://example.org/ctx/', 'GO': '...'}) raises AttributeError",
+                    detail="content-dispatch",
+                )
+            else:
+                ob.undecide(f"from_prefix_map delegates to {recs[1]} under a condition that was not classified")
+            continue
         sc = _single_comp(ob, m, recs, line, s=s)
         if sc is None:
             ob.undecide("from_prefix_map record construction not a single comprehension")
